@@ -262,7 +262,7 @@ class SeriesSchema(ArraySchema[pd.Series]):
         )
         if self.index is not None:
             validated_obj = self.index.validate(
-                check_obj,
+                validated_obj,
                 head=head,
                 tail=tail,
                 sample=sample,
